@@ -92,5 +92,83 @@ fn tsig_error_field_from_wire(vp_wire: u16) -> (error: Option<TsigError>)
     ;
     error
 }
+// ---- SqliteZoneHandler::authorized_tsig as a whole (an `async fn` without awaits): which key, which verdict, and
+//      WHETHER THE REPLY IS SIGNED.  C13: "takes effect only if the request ends with a TSIG record naming a configured
+//      key whose full-length MAC verifies over the exact request bytes and whose time is within fudge of the server
+//      clock".  RFC 8945 5.3.2: a BADKEY / BADSIG reply is NOT signed; only a request whose MAC verified (BADTIME
+//      included) gets a reply signed with the key -- otherwise the server is a signing oracle. ----
+pub struct Name { pub id: u64 }
+impl vstd::std_specs::cmp::PartialEqSpecImpl for Name { open spec fn obeys_eq_spec() -> bool { true } open spec fn eq_spec(&self, o: &Name) -> bool { self.id == o.id } }
+impl PartialEq for Name { fn eq(&self, o: &Name) -> (r: bool) { self.id == o.id } }
+impl Name { #[verifier::external_body] pub fn clone(&self) -> (r: Name) ensures r == *self { unimplemented!() } }
+pub struct DnsSecError { pub vp: u64 }
+pub struct TSigner { pub name: Name, pub vp: u64 }
+// what TSigner::verify_message_byte computes on these bytes: does the MAC verify (key name / algorithm / full-length MAC
+// over the request), and the validity window of the request's TSIG
+pub uninterp spec fn mac_ok(k: TSigner, bytes: Seq<u8>) -> bool;
+pub uninterp spec fn window_of(k: TSigner, bytes: Seq<u8>) -> Range<u64>;
+impl TSigner {
+    pub fn signer_name(&self) -> (r: &Name) ensures *r == self.name { &self.name }
+    #[verifier::external_body]
+    pub fn verify_message_byte(&self, message: &[u8], previous_hash: Option<&[u8]>, first_message: bool) -> (r: Result<(Vec<u8>, u64, Range<u64>), DnsSecError>)
+        ensures match r { Ok((_, _, range)) => mac_ok(*self, message@) && range == window_of(*self, message@), Err(_) => !mac_ok(*self, message@) }
+    { unimplemented!() }
+    #[verifier::external_body] pub fn clone(&self) -> (r: TSigner) ensures r == *self { unimplemented!() }
+}
+pub struct TsigAlgorithm { pub vp: u64 }
+//%struct crates/proto/src/rr/rdata/tsig.rs :: TSIG
+//%end
+pub struct Record<R> { pub name: Name, pub data: R }
+pub struct Request { pub id: u16, pub raw: Vec<u8> }
+impl Request {
+    pub fn id(&self) -> (r: u16) ensures r == self.id { self.id }
+    pub fn as_slice(&self) -> (r: &[u8]) ensures r@ == self.raw@ { self.raw.as_slice() }
+}
+// server/src/zone_handler: how the reply's TSIG will be produced
+pub enum TSigResponseContext {
+    UnknownKey { id: u16, name: Name },                                  // TSigResponseContext::unknown_key: unsigned BADKEY
+    BadSignature { id: u16, signer: TSigner },                           // TSigResponseContext::bad_signature: unsigned BADSIG
+    Signed { id: u16, signer: TSigner, error: Option<TsigError> },       // TSigResponseContext::new: reply SIGNED with `signer`
+}
+impl TSigResponseContext {
+    pub fn unknown_key(id: u16, now: u64, name: Name) -> (r: Self) ensures r == (TSigResponseContext::UnknownKey { id, name }) { TSigResponseContext::UnknownKey { id, name } }
+    pub fn bad_signature(id: u16, now: u64, signer: TSigner) -> (r: Self) ensures r == (TSigResponseContext::BadSignature { id, signer }) { TSigResponseContext::BadSignature { id, signer } }
+    pub fn new(id: u16, now: u64, signer: TSigner, mac: Vec<u8>, error: Option<TsigError>) -> (r: Self) ensures r == (TSigResponseContext::Signed { id, signer, error }) { TSigResponseContext::Signed { id, signer, error } }
+}
+#[verifier::external_body]
+pub fn vp_vec_clone(v: &Vec<u8>) -> (r: Vec<u8>) ensures r@ == v@ { v.clone() }
+// `self.tsig_signers.iter().find(f)`: first element with f true, specified through the closure's own contract
+#[verifier::external_body]
+pub fn vp_find<'s, T, F: Fn(&&'s T) -> bool>(s: &'s [T], f: F) -> (r: Option<&'s T>)
+    requires forall|i: int| 0 <= i < s@.len() ==> call_requires(f, (&&#[trigger] s@[i],))
+    ensures match r {
+        Some(x) => exists|i: int| 0 <= i < s@.len() && *x == #[trigger] s@[i] && call_ensures(f, (&&s@[i],), true),
+        None => forall|i: int| 0 <= i < s@.len() ==> call_ensures(f, (&&#[trigger] s@[i],), false) }
+{ s.iter().find(f) }
+pub struct SqliteZoneHandler { pub tsig_signers: Vec<TSigner> }
+impl SqliteZoneHandler {
+//%fn crates/server/src/store/sqlite/mod.rs :: impl<P: RuntimeProvider + Send + Sync> SqliteZoneHandler<P> :: authorized_tsig
+//%sub1 "async fn" => "fn" # R-await: an `async fn` whose body contains no `.await`
+//%sub1 "self .tsig_signers .iter() .find(" => "vp_find(self.tsig_signers.as_slice(), " # R-shim: slice iterator `find`, specified through the closure's contract
+//%sub? "range.contains(&now)" => "vp_range_contains(&range, &now)" # R-shim: core::ops::Range::contains
+//%sub1 "tsig.data.mac.clone()" => "vp_vec_clone(&tsig.data.mac)" # R-shim: Vec::clone
+//%closure "|tsigner|"
+|tsigner: &&TSigner| -> (b: bool) ensures b == (tsigner.name.id == tsig.name.id)
+//%mutant time_window_ignored "if !range.contains(&now)" => "if false"
+//%mutant bad_signature_reply_signed "TSigResponseContext::bad_signature(req_id, now, tsigner.clone())" => "TSigResponseContext::new(req_id, now, tsigner.clone(), vp_vec_clone(&tsig.data.mac), None)"
+//%contract
+        ensures
+            // the request is authorised only by a configured key of that name whose MAC verifies over the exact request
+            // bytes and whose window contains the server clock
+            r.0 is Ok ==> exists|i: int| 0 <= i < self.tsig_signers@.len() && (#[trigger] self.tsig_signers@[i]).name.id == tsig.name.id
+                && mac_ok(self.tsig_signers@[i], request.raw@)
+                && window_of(self.tsig_signers@[i], request.raw@).start <= now < window_of(self.tsig_signers@[i], request.raw@).end,
+            // the reply is signed with a key only if the request's MAC verified under that key (no signing oracle)
+            r.1 matches TSigResponseContext::Signed { signer, error, .. } ==> mac_ok(signer, request.raw@) && (r.0 is Ok <==> error is None),
+            // every reply carries the request id
+            match r.1 { TSigResponseContext::UnknownKey { id, .. } => id == request.id, TSigResponseContext::BadSignature { id, .. } => id == request.id, TSigResponseContext::Signed { id, .. } => id == request.id },
+//%end
+}
+
 } // verus!
 fn main() {}
